@@ -7,9 +7,12 @@
      wf_disc rules      : discovered dependencies are rules that observe external state (r_obs = true);
      wf_order order     : the dependency-order oracle returns a permutation of the requested list;
      (rank k < fuel)    : the fuel suffices for the key that is built;
-     AtRest F R s   : the environment-free invariant of states between builds (bounds, memory/database
-                          agreement, and the per-row consistency INV); it holds of [init_state] and is preserved by
-                          every history operation.
+     table_ok rules R   : R k sg is THE rule of key k with signature sg, and the table agrees with it
+                          (R k (r_sig (rules k)) = rules k); for a fixed rule table take R := fixedR rules,
+                          for which table_ok holds trivially (fixedR_ok);
+     AtRest F R s       : the environment-free invariant of states between builds (bounds, memory/database
+                          agreement, and the per-row consistency INV relative to R); it holds of [init_state] and
+                          is preserved by every history operation.
    The task function F, the environment env and the oracle are universally quantified. *)
 From Coq Require Import List NArith Arith.
 From LLB Require Import Engine.Rules Engine.Spec Engine.Exec Engine.SpecFrame Engine.SpecInv1 Engine.SpecC01.
@@ -116,3 +119,52 @@ Print Assumptions c01_example_hyps.
 Example c01_example_builds_clean : ex_build_checks = [true; true; true; true; true; true].
 Proof. exact ex_history_clean. Qed.
 Print Assumptions c01_example_builds_clean.
+
+(* ---- histories WITH rule edits (ORule takes effect at the next ORestart) ----
+   R k sg is the one rule of key k with signature sg; the premise "two different rules for the same key never share a
+   signature" enters as [table_ok (rules_of tbl) R] for every table tbl an engine instance is started with.
+   [tables_ok fuel R ops rl pd] states, over the rule tables only, that at every OBuild k of the history the table the
+   engine sees satisfies table_ok, wf_disc and wf_rank for some rank with rank k < fuel. *)
+Theorem c01_history_with_rule_edits : forall F order fuel R, wf_order order ->
+  forall ops h, AtRest F R (h_st h) -> hist_ok F order fuel R ops h ->
+  AtRest F R (h_st (fold_left (hstep F order fuel) ops h)).
+Proof. exact c01_history_with_rule_edits_thm. Qed.
+Print Assumptions c01_history_with_rule_edits.
+
+Theorem c01_run_history_with_rule_edits : forall F order fuel R, wf_order order ->
+  forall ops k, tables_ok fuel R (ops ++ [OBuild k]) [] [] ->
+  let h := run_history F order fuel ops in
+  AtRest F R (h_st h) /\
+  exists s1, h_st (run_history F order fuel (ops ++ [OBuild k])) =
+             emit s1 (EResult (cv (rules_of (h_rules h)) (env_of (h_env h)) F fuel k) false).
+Proof. exact c01_run_history_with_rule_edits_thm. Qed.
+Print Assumptions c01_run_history_with_rule_edits.
+
+(* R can be built from the list of all rules ever defined when their (key, signature) pairs are pairwise distinct and
+   no signature is 0 (the signature of the default rule of undefined keys) *)
+Theorem c01_R_of_table_ok : forall all tbl,
+  (forall p, In p all -> r_sig (snd p) <> 0) -> sig_unique all -> (forall p, In p tbl -> In p all) ->
+  table_ok (rules_of tbl) (R_of all).
+Proof. exact R_of_table_ok. Qed.
+Print Assumptions c01_R_of_table_ok.
+
+(* non-vacuity: the example history continued by an edit of rule 4, a restart over the database and three builds *)
+Example c01_example_edit_hyps : wf_order ex_order /\ tables_ok 5 (R_of ex_all) ex_edit_history [] [].
+Proof. exact (conj ex_wf_order ex_edit_tables_ok). Qed.
+Print Assumptions c01_example_edit_hyps.
+
+Example c01_example_edit_builds_clean : ex_edit_checks = [true; true; true; true; true; true; true; true; true].
+Proof. exact ex_edit_history_clean. Qed.
+Print Assumptions c01_example_edit_builds_clean.
+
+(* ---- frame facts used above (Engine/SpecFrame.v), for the record ---- *)
+Theorem c01_ensure_frame : forall rules env F order fuel stack s k,
+  frame_o stack s k (ensure rules env F order fuel stack s k).
+Proof. exact ensure_frame. Qed.
+Print Assumptions c01_ensure_frame.
+
+Theorem c01_ensure_fuel_mono : forall rules env F order f f' stack s k, (f <= f')%nat ->
+  ensure rules env F order f stack s k <> OutOfFuel ->
+  ensure rules env F order f' stack s k = ensure rules env F order f stack s k.
+Proof. exact ensure_fuel_mono. Qed.
+Print Assumptions c01_ensure_fuel_mono.
